@@ -208,7 +208,9 @@ pub fn run(
     max_len: usize,
     hang_secs: u64,
     replay_dir: &str,
+    corpus: &[Vec<u8>],
 ) -> RunResult {
+    let corpus: Arc<Vec<Vec<u8>>> = Arc::new(corpus.to_vec());
     let stop = Arc::new(AtomicBool::new(false));
     let slots: Vec<Arc<Slot>> = (0..threads)
         .map(|_| {
@@ -225,6 +227,7 @@ pub fn run(
         let engine = engine.clone();
         let stop = stop.clone();
         let slot = slots[t].clone();
+        let corpus = corpus.clone();
         let h = std::thread::Builder::new()
             .stack_size(64 << 20)
             .spawn(move || {
@@ -236,7 +239,7 @@ pub fn run(
                     }
                 }
                 let _done = Done(slot.clone());
-                let r = shard(engine, prop, seed.wrapping_mul(1000003).wrapping_add(t as u64), per, max_len, stop, slot.clone());
+                let r = shard(engine, prop, seed.wrapping_mul(1000003).wrapping_add(t as u64), per, max_len, stop, slot.clone(), &corpus, t, threads);
                 slot.done.store(true, Ordering::SeqCst);
                 r
             })
@@ -323,6 +326,9 @@ fn shard(
     max_len: usize,
     stop: Arc<AtomicBool>,
     slot: Arc<Slot>,
+    corpus: &[Vec<u8>],
+    shard_no: usize,
+    shards: usize,
 ) -> (Stats, Option<Failure>) {
     let mut seed_bytes = [0u8; 32];
     for (i, b) in seed_bytes.iter_mut().enumerate() {
@@ -330,6 +336,54 @@ fn shard(
     }
     let mut stats = Stats::default();
     let mut failure: Option<Failure> = None;
+    // saved inputs first (the committed corpus of this property: minimised
+    // cases that exposed some seeded change; on a tree on which the property
+    // holds they are ordinary generated cases). They bypass proptest.
+    for (i, bytes) in corpus.iter().enumerate() {
+        if i % shards != shard_no {
+            continue;
+        }
+        if stop.load(Ordering::SeqCst) {
+            break;
+        }
+        slot.beat.fetch_add(1, Ordering::Relaxed);
+        crate::crash::publish(bytes);
+        if let Ok(mut g) = slot.current.lock() {
+            g.clear();
+            g.extend_from_slice(bytes);
+        }
+        let ev = engine.eval(bytes, false);
+        stats.evaluations += 1;
+        *stats.labels.entry("saved_corpus_input").or_default() += 1;
+        if let Some(why) = ev.inconclusive {
+            *stats.inconclusive.entry(why).or_default() += 1;
+        }
+        for l in &ev.labels {
+            *stats.labels.entry(l).or_default() += 1;
+        }
+        if ev.nontrivial {
+            stats.nontrivial_evals += 1;
+            stats.distinct.insert(ev.hash);
+        }
+        for v in &ev.violations {
+            let p = v.oracle.property();
+            if p != prop {
+                *stats.other_signals.entry(p).or_default() += 1;
+                stats.other_examples.entry(p).or_insert_with(|| format!("{} :: {}", v.msg, ev.show));
+            }
+        }
+        if ev.violations.iter().any(|v| v.oracle.property() == prop) {
+            stop.store(true, Ordering::SeqCst);
+            let ev = engine.eval(bytes, true);
+            let messages: Vec<String> =
+                ev.violations.iter().filter(|v| v.oracle.property() == prop).map(|v| format!("{:?}: {}", v.oracle, v.msg)).collect();
+            if !messages.is_empty() {
+                return (stats, Some(Failure { bytes: bytes.clone(), show: ev.show, messages, trace: ev.trace }));
+            }
+            // did not reproduce with the trace switched on: leave it to the generated search
+            stop.store(false, Ordering::SeqCst);
+        }
+    }
     // proptest aborts the run at the first failure; run in chunks so that a
     // global stop flag is honoured promptly.
     let chunk: u32 = 2000;
